@@ -31,6 +31,14 @@ func calleeName(c ssa.CallInstruction) string {
 func fullCalleeName(c ssa.CallInstruction) string {
 	cc := c.Common()
 	if f := cc.StaticCallee(); f != nil {
+		// the typed atomics (`x.CompareAndSwap(a, b)` on an atomic.Int32 field) are named like the functions they wrap
+		// (`atomic.CompareAndSwapInt32(&x, a, b)`): the receiver is argument 0 in both forms, so rules written for
+		// one form hold for the other
+		if recv := f.Signature.Recv(); recv != nil {
+			if n, ok := deref(recv.Type()).(*types.Named); ok && n.Obj().Pkg() != nil && n.Obj().Pkg().Path() == "sync/atomic" {
+				return "sync/atomic." + f.Name() + n.Obj().Name()
+			}
+		}
 		return f.String()
 	}
 	if cc.IsInvoke() {
@@ -134,6 +142,9 @@ func reachableFrom(from *ssa.BasicBlock, skipEdge func(a, b *ssa.BasicBlock) boo
 func typeName(t types.Type) string {
 	t = deref(t)
 	if n, ok := t.(*types.Named); ok {
+		if curProg != nil && n.Obj().Pkg() == curProg.Pkg.Types {
+			return curProg.canonTypeName(n) // a renamed package type is known under its recorded name (schema.go)
+		}
 		return n.Obj().Name()
 	}
 	return ""
@@ -143,7 +154,21 @@ func typeName(t types.Type) string {
 func (p *Prog) isPkgType(t types.Type, name string) bool {
 	t = deref(t)
 	n, ok := t.(*types.Named)
-	return ok && n.Obj().Name() == name && n.Obj().Pkg() == p.Pkg.Types
+	if !ok || n.Obj().Pkg() != p.Pkg.Types {
+		return false
+	}
+	if n.Obj().Name() == name {
+		return true
+	}
+	// a renamed type is known under its recorded name (schema.go)
+	_, frozenS := frozenSchema[name]
+	_, frozenN := frozenNamed[name]
+	if frozenS || frozenN {
+		if r := p.schema().typeOf[name]; r != nil {
+			return r.Obj() == n.Origin().Obj()
+		}
+	}
+	return false
 }
 
 // referrers returns the referrers of v (nil-safe).
